@@ -437,6 +437,11 @@ func (v *ADTSImpl) Decode(data []byte) (raw, left []byte, err error) {
 	v.asc.Channels = Channels(channelConfiguration)
 	v.asc.SampleRate = SampleRateIndex(samplingFrequencyIndex)
 
+	// the frame_length includes the header, a smaller one is not a frame.
+	if frameLength < nbHeader {
+		return nil, nil, errors.Errorf("invalid frame length %v, header is %v bytes", frameLength, nbHeader)
+	}
+
 	nbRaw := int(frameLength - nbHeader)
 	if len(p) < nbRaw {
 		return nil, nil, errors.Errorf("requires %v but only %v bytes", nbRaw, len(p))
